@@ -71,6 +71,7 @@ fn run(input: RunInput) -> ScenFuture {
         let plan: PlanFn = Arc::new(|req: &Request<Bytes>| Plan {
             delay: Duration::from_micros(req.headers().get("x-delay-us").and_then(|v| v.parse().ok()).unwrap_or(0)),
             response: Response::new(req.body().clone()).with_header("x-done", "1"),
+            hold: Duration::ZERO,
         });
         let svc = Svc::new(&w, plan.clone());
         let h = svc.handle();
